@@ -72,12 +72,27 @@ def fn_code_hash(fn: Callable, salt: str = None, environment: bytes = None) -> s
                 o.co_stacksize,
                 o.co_varnames,
             ]
+            if o is top_level_code and (defaults or kwdefaults):
+                # Default parameter values live on the function, not on its code object
+                attr_values.append(
+                    [
+                        [stable_repr(x) for x in defaults],
+                        sorted([k, stable_repr(v)] for (k, v) in kwdefaults.items()),
+                    ]
+                )
             if salt:
                 sha256.update(salt.encode("utf-8"))
             sha256.update(json.dumps(attr_values, sort_keys=True).encode("utf-8"))
             return sha256.hexdigest()[0:16]
         else:
             return repr(o)
+
+    def stable_repr(o):
+        """Process-independent description of a default parameter value"""
+        try:
+            return json.dumps(MementoCodec.encode_arg(o), sort_keys=True)
+        except (TypeError, ValueError):
+            return type(o).__module__ + ":" + type(o).__qualname__
 
     if isinstance(fn, MementoFunctionType):
         memento_fn = fn  # type: MementoFunctionType
@@ -87,6 +102,9 @@ def fn_code_hash(fn: Callable, salt: str = None, environment: bytes = None) -> s
         fn = fn.__wrapped__
     if hasattr(fn, "__code__"):
         code = getattr(fn, "__code__")  # type: code
+        top_level_code = code
+        defaults = getattr(fn, "__defaults__", None) or ()
+        kwdefaults = getattr(fn, "__kwdefaults__", None) or {}
         result = hash_if_code_object(code)
         return result
     else:
